@@ -39,7 +39,7 @@ def run(tier, deadline):
     def confirm(v):
         kv = dict(l.split("=", 1) for l in v.replay_text.strip().splitlines()); return replay(kv, quiet=True) == 1
     cov = {"evaluations": tot["calls"], "distinct_nontrivial": tot["formats_with_values"],
-           "rule": "every directive %[flags][width][.precision][length]conv with flags any subset of {- + space # 0} that C defines for the conversion, width in {none,1,5,12,40,*(7),*(-7)}, precision in {none,.0,.1,.5,.12,.40,.*(3),.*(-1)}, conversions d i u x X o with lengths {none,hh,h,l,ll,z,j,t} over {0,1,-1,42,-42,INT_MAX,INT_MIN,LLONG_MAX,LLONG_MIN} / {0,1,255,0x8000,UINT_MAX,ULLONG_MAX} truncated to the type; f F e E g G with {none,L} over 19 values (zeros of both signs, halves, 999999999.5, 1e9, 1e9+1, 1e300, smallest denormal, infinities, nan, small and 8-digit values); s ls c lc with four narrow (one UTF-8), three wide strings and ASCII/Latin-1 characters; %% and literal text; thorough adds two-directive formats. Each directive is wrapped in brackets and run through sprintf_s and snprintf_s with dmax in {1, need-1, need, need+1 (, 256)} and through fprintf_s on a memory stream; the reference is libc snprintf with the same arguments. Oracle: if the text fits, the return value equals printf's count and the bytes are equal (floating conversions: same layout, same length, value within one unit of the last printed digit); if it does not fit sprintf_s must fail and snprintf_s must fail or return a terminated prefix of the printf text; every case is run once after a neutral call and once after a call through the long-double and hex-float path and both runs must agree",
+           "rule": "every directive %[flags][width][.precision][length]conv with flags any subset of {- + space # 0} that C defines for the conversion, width in {none,1,5,12,40,64,*(7),*(-7)} (thorough: 23 widths up to 100), precision in {none,.0,.1,.5,.12,.40,.*(3),.*(-1)}, conversions d i u x X o with lengths {none,hh,h,l,ll,z,j,t} over {0,1,-1,42,-42,INT_MAX,INT_MIN,LLONG_MAX,LLONG_MIN} / {0,1,255,0x8000,UINT_MAX,ULLONG_MAX} truncated to the type; f F e E g G with {none,L} over 19 values (zeros of both signs, halves, 999999999.5, 1e9, 1e9+1, 1e300, smallest denormal, infinities, nan, small and 8-digit values); s ls c lc with four narrow (one UTF-8), three wide strings and ASCII/Latin-1 characters; %% and literal text; thorough adds two-directive formats. Each directive is wrapped in brackets and run through sprintf_s and snprintf_s with dmax in {1, need/2, need-4, need-2, need-1, need, need+1 (, 256)} and through fprintf_s on a memory stream; the reference is libc snprintf with the same arguments. Oracle: if the text fits, the return value equals printf's count and the bytes are equal (floating conversions: same layout, same length, value within one unit of the last printed digit); if it does not fit sprintf_s must fail and snprintf_s must fail or return a terminated prefix of the printf text; every case is run once after a neutral call and once after a call through the long-double and hex-float path and both runs must agree",
            "samples": ["[%-05d] INT_MIN dmax=need", "[%#.0o] 0", "[%+*.*Le] (7,3) 1e300", "[%.1g] 999999999.5", "[%-5.1ls] L\"\\u00e9\\u20ac\" fprintf_s", "[%.40u] ULLONG_MAX dmax=need-1"],
            "float_cases_accepted_by_tolerance": tot["float_within_tolerance"], "jobs_timed_out": len(timed_out)}
     return common.finish("C11", tier, t0, cov, violations,
